@@ -16,6 +16,48 @@ from ..translate.catalogue import TranslateError
 from ..translate.effects import translate
 
 
+def report_pipeline(repo: Path) -> str:
+    """GenReport.v: every statement of run_refurb that mentions the list `errors`, and the shape of should_ignore_error."""
+    import ast
+    tree = ast.parse((repo / "refurb" / "main.py").read_text("utf8"))
+    rr = next((n for n in tree.body if isinstance(n, ast.FunctionDef) and n.name == "run_refurb"), None)
+    si = next((n for n in tree.body if isinstance(n, ast.FunctionDef) and n.name == "should_ignore_error"), None)
+    if rr is None or si is None:
+        raise TranslateError("run_refurb / should_ignore_error not found")
+    uses = []
+
+    def simple(st) -> bool:
+        return isinstance(st, (ast.Assign, ast.AnnAssign, ast.AugAssign, ast.Expr, ast.Return, ast.Delete, ast.Assert, ast.Raise))
+
+    def walk(stmts):
+        for st in stmts:
+            if simple(st):
+                if any(isinstance(x, ast.Name) and x.id == "errors" for x in ast.walk(st)):
+                    uses.append(ast.unparse(st))
+            else:
+                # compound statement: its header may mention the list too (a loop over it, a with/if on it)
+                hdr = [getattr(st, f, None) for f in ("test", "iter", "target", "subject")]
+                hdr += [i.context_expr for i in getattr(st, "items", [])]
+                for h in hdr:
+                    if h is not None and any(isinstance(x, ast.Name) and x.id == "errors" for x in ast.walk(h)):
+                        uses.append(ast.unparse(h) + "  (header of a " + type(st).__name__ + ")")
+                for f in ("body", "orelse", "finalbody"):
+                    walk(getattr(st, f, []) or [])
+                for h in getattr(st, "handlers", []) or []:
+                    walk(h.body)
+                for c in getattr(st, "cases", []) or []:
+                    walk(c.body)
+    walk(rr.body)
+    body = [s for s in si.body if not (isinstance(s, ast.Expr) and isinstance(s.value, ast.Constant))]
+    if (len(body) == 2 and ast.unparse(body[0]) == "if isinstance(error, str):\n    return False" and isinstance(body[1], ast.Return)):
+        shape = "isinstance(error, str) -> False | " + ast.unparse(body[1].value)
+    else:
+        shape = " ; ".join(ast.unparse(s) for s in body)
+    return ("From Lib Require Import Base.\nOpen Scope list_scope.\n"
+            f"Definition errors_uses : list string := {coq.coq_list([coq.coq_str(u) for u in uses])}.\n"
+            f"Definition should_ignore_shape : string := {coq.coq_str(shape)}.\n")
+
+
 def run_jobs(jobs: list[dict], workers: int = 12, timeout: int = 3000) -> dict:
     groups = [jobs[i::workers] for i in range(workers)]
     groups = [g for g in groups if g]
@@ -115,7 +157,13 @@ def run(ctx: Ctx) -> None:
         helper_state = [e for e in process_state(REPO) if e.split(":")[1] not in check_files and e.split(":")[1] != "refurb/main.py"]
         gen += "Definition helper_state : list string := " + coq.coq_list([coq.coq_str(x) for x in helper_state]) + ".\n"
         ctx.extra["helper_state"] = helper_state
-        b = coq.compile_props(ctx, {"GenEffects": gen}, ["GenEffects", "C10", "C10Helpers"])
+        gens_, order_ = {"GenEffects": gen}, ["GenEffects", "C10", "C10Helpers"]
+        try:
+            gens_["GenReport"] = report_pipeline(REPO)
+            order_ += ["GenReport", "C10Report"]
+        except TranslateError as e:
+            ctx.obligation("translate run_refurb's handling of the collected diagnostics", False, str(e))
+        b = coq.compile_props(ctx, gens_, order_)
         coq.record_build(ctx, b)
         ctx.extra["effect_rows_nontrivial"] = [r for r in rows if r["mutated_globals"] or r["ast_writes"] or r["errors_reads"] or r["foreign"]]
     rng = ctx.rng
@@ -182,4 +230,5 @@ def run(ctx: Ctx) -> None:
             ctx.report(key, f"{mode} {sel[:4]}: {len(missing)} diagnostics lost, {len(extra)} added/changed (e.g. {(missing + extra)[0][1:4] if missing + extra else 'order only'})",
                        {"files": [Path(f).name for f in groups[gi]], "mode": mode, "codes": sel, "missing": missing, "extra": extra})
     shutil.rmtree(comp_dir, ignore_errors=True)
-    ctx.resolve_broken({"effects_admissible": "interference:", "helpers_share_no_state": "interference:"}, b.first_error if b else "")
+    ctx.resolve_broken({"effects_admissible": "interference:", "helpers_share_no_state": "interference:", "report_pipeline_is_filter_then_sort": "interference:",
+                        "ignore_test_is_per_diagnostic": "interference:", "translate run_refurb's handling of the collected diagnostics": "interference:"}, b.first_error if b else "")
